@@ -2,43 +2,43 @@
    (more fuel never changes a successful result). *)
 From V Require Import Common.Base C13.KwSpec C13.Token C13.LexSpec C13.Toks C13.ParseSpec.
 
-Definition PE := Z -> list tok -> option (expr * list tok).
-Definition PS := Z -> expr -> Z -> list tok -> option (expr * list tok).
+Definition PE := bool -> Z -> list tok -> option (expr * list tok).
+Definition PS := bool -> Z -> expr -> Z -> list tok -> option (expr * list tok).
 Definition PA := list tok -> option (expr * list tok).
 
-Definition expr_step (pe : PE) (ps : PS) (pa : PA) (L : Z) (ts : list tok) : option (expr * list tok) :=
+Definition expr_step (pe : PE) (ps : PS) (pa : PA) (ni : bool) (L : Z) (ts : list tok) : option (expr * list tok) :=
   match ts with
   | [] => None
   | t :: r =>
     if is_new t then
-      match pe S_Call r with
+      match pe false S_Call r with
       | Some (c, r') =>
           match r' with
           | p :: r'' =>
               if is_open p then
                 match pa r'' with
-                | Some (a, r3) => ps L (ENew c a) S_Member r3
+                | Some (a, r3) => ps ni L (ENew c a) S_Member r3
                 | None => None
                 end
-              else ps L (ENew c ANil) S_New r'
-          | [] => ps L (ENew c ANil) S_New r'
+              else ps ni L (ENew c ANil) S_New r'
+          | [] => ps ni L (ENew c ANil) S_New r'
           end
       | None => None
       end
     else match prefix_op t with
     | Some o =>
         if S_New <=? L then None
-        else match pe S_Unary r with
-        | Some (v, r') => if negb (is_update o) || is_target v then ps L (EUn o v) S_Unary r' else None
+        else match pe false S_Unary r with
+        | Some (v, r') => if negb (is_update o) || is_target v then ps ni L (EUn o v) S_Unary r' else None
         | None => None
         end
     | None =>
         match atom_of t with
-        | Some a => ps L a S_Member r
+        | Some a => ps ni L a S_Member r
         | None =>
             if is_open t then
-              match pe 0 r with
-              | Some (e, c :: r'') => if is_close c then ps L e S_Member r'' else None
+              match pe false 0 r with
+              | Some (e, c :: r'') => if is_close c then ps ni L e S_Member r'' else None
               | _ => None
               end
             else None
@@ -46,19 +46,19 @@ Definition expr_step (pe : PE) (ps : PS) (pa : PA) (L : Z) (ts : list tok) : opt
     end
   end.
 
-Definition suffix_step (pe : PE) (ps : PS) (pa : PA) (L : Z) (left : expr) (ll : Z) (ts : list tok) : option (expr * list tok) :=
+Definition suffix_step (pe : PE) (ps : PS) (pa : PA) (ni : bool) (L : Z) (left : expr) (ll : Z) (ts : list tok) : option (expr * list tok) :=
   match ts with
   | [] => Some (left, [])
   | t :: r =>
     if is_dot t then
       match r with
-      | TId s :: r' => if S_Call <=? ll then ps L (EDot left s) S_Member r' else None
+      | TId s :: r' => if S_Call <=? ll then ps ni L (EDot left s) S_Member r' else None
       | _ => None
       end
     else if is_lbrack t then
       if S_Call <=? ll then
-        match pe 0 r with
-        | Some (i, c :: r') => if is_rbrack c then ps L (EIndex left i) S_Member r' else None
+        match pe false 0 r with
+        | Some (i, c :: r') => if is_rbrack c then ps ni L (EIndex left i) S_Member r' else None
         | _ => None
         end
       else None
@@ -66,18 +66,18 @@ Definition suffix_step (pe : PE) (ps : PS) (pa : PA) (L : Z) (left : expr) (ll :
       if S_Call <=? L then Some (left, ts)
       else if S_Call <=? ll then
         match pa r with
-        | Some (a, r') => ps L (ECall left a) S_Call r'
+        | Some (a, r') => ps ni L (ECall left a) S_Call r'
         | None => None
         end
       else None
     else if is_quest t then
       if S_Cond <=? L then Some (left, ts)
       else if S_Cond <? ll then
-        match pe 3 r with
+        match pe false 3 r with
         | Some (y, c :: r') =>
             if is_colon c then
-              match pe 3 r' with
-              | Some (no, r'') => ps L (ECond left y no) S_Cond r''
+              match pe ni 3 r' with
+              | Some (no, r'') => ps ni L (ECond left y no) S_Cond r''
               | None => None
               end
             else None
@@ -87,14 +87,14 @@ Definition suffix_step (pe : PE) (ps : PS) (pa : PA) (L : Z) (left : expr) (ll :
     else match postfix_op t with
     | Some o =>
         if S_Update <=? L then Some (left, ts)
-        else if (S_Member <=? ll) && is_target left then ps L (EUn o left) S_Update r else None
+        else if (S_Member <=? ll) && is_target left then ps ni L (EUn o left) S_Update r else None
     | None =>
         match binary_op t with
         | Some o =>
-            if spec_level o <=? L then Some (left, ts)
+            if (ni && op_eqb o BIn) || (spec_level o <=? L) then Some (left, ts)
             else if left_ok o ll left then
-              match pe (right_level o) r with
-              | Some (rt, r') => ps L (EBin o left rt) (spec_level o) r'
+              match pe ni (right_level o) r with
+              | Some (rt, r') => ps ni L (EBin o left rt) (spec_level o) r'
               | None => None
               end
             else None
@@ -108,7 +108,7 @@ Definition args_step (pe : PE) (pa : PA) (ts : list tok) : option (expr * list t
   | [] => None
   | t :: r =>
     if is_close t then Some (ANil, r)
-    else match pe 3 ts with
+    else match pe false 3 ts with
          | Some (e, c :: r') =>
              if is_close c then Some (ACons e ANil, r')
              else if is_comma c then
@@ -121,65 +121,65 @@ Definition args_step (pe : PE) (pa : PA) (ts : list tok) : option (expr * list t
          end
   end.
 
-Lemma parse_expr_S n L ts : parse_expr (S n) L ts = expr_step (parse_expr n) (parse_suffix n) (parse_args n) L ts.
+Lemma parse_expr_S n ni L ts : parse_expr (S n) ni L ts = expr_step (parse_expr n) (parse_suffix n) (parse_args n) ni L ts.
 Proof. reflexivity. Qed.
-Lemma parse_suffix_S n L left ll ts :
-  parse_suffix (S n) L left ll ts = suffix_step (parse_expr n) (parse_suffix n) (parse_args n) L left ll ts.
+Lemma parse_suffix_S n ni L left ll ts :
+  parse_suffix (S n) ni L left ll ts = suffix_step (parse_expr n) (parse_suffix n) (parse_args n) ni L left ll ts.
 Proof. reflexivity. Qed.
 Lemma parse_args_S n ts : parse_args (S n) ts = args_step (parse_expr n) (parse_args n) ts.
 Proof. reflexivity. Qed.
 
-Definition pe_le (a b : PE) : Prop := forall L ts r, a L ts = Some r -> b L ts = Some r.
-Definition ps_le (a b : PS) : Prop := forall L left ll ts r, a L left ll ts = Some r -> b L left ll ts = Some r.
+Definition pe_le (a b : PE) : Prop := forall ni L ts r, a ni L ts = Some r -> b ni L ts = Some r.
+Definition ps_le (a b : PS) : Prop := forall ni L left ll ts r, a ni L left ll ts = Some r -> b ni L left ll ts = Some r.
 Definition pa_le (a b : PA) : Prop := forall ts r, a ts = Some r -> b ts = Some r.
 
 Lemma expr_step_mono pe pe' ps ps' pa pa' : pe_le pe pe' -> ps_le ps ps' -> pa_le pa pa' ->
-  forall L ts r, expr_step pe ps pa L ts = Some r -> expr_step pe' ps' pa' L ts = Some r.
+  forall ni L ts r, expr_step pe ps pa ni L ts = Some r -> expr_step pe' ps' pa' ni L ts = Some r.
 Proof.
-  intros He Hs Ha L ts r H. unfold expr_step in *.
+  intros He Hs Ha ni L ts r H. unfold expr_step in *.
   destruct ts as [|t r0]; [discriminate|].
   destruct (is_new t).
-  { destruct (pe S_Call r0) as [[c r']|] eqn:E; [|discriminate]. rewrite (He _ _ _ E).
+  { destruct (pe false S_Call r0) as [[c r']|] eqn:E; [|discriminate]. rewrite (He _ _ _ _ E).
     destruct r' as [|p r'']; [apply Hs; exact H|].
     destruct (is_open p); [|apply Hs; exact H].
     destruct (pa r'') as [[a r3]|] eqn:E2; [|discriminate]. rewrite (Ha _ _ E2). apply Hs. exact H. }
   destruct (prefix_op t).
   - destruct (S_New <=? L); [discriminate|].
-    destruct (pe S_Unary r0) as [[v r']|] eqn:E; [|discriminate]. rewrite (He _ _ _ E).
+    destruct (pe false S_Unary r0) as [[v r']|] eqn:E; [|discriminate]. rewrite (He _ _ _ _ E).
     destruct (negb (is_update o) || is_target v); [|discriminate]. apply Hs. exact H.
   - destruct (atom_of t); [apply Hs; exact H|].
     destruct (is_open t); [|discriminate].
-    destruct (pe 0 r0) as [[e [|c r'']]|] eqn:E; try discriminate. rewrite (He _ _ _ E).
+    destruct (pe false 0 r0) as [[e [|c r'']]|] eqn:E; try discriminate. rewrite (He _ _ _ _ E).
     destruct (is_close c); [|discriminate]. apply Hs. exact H.
 Qed.
 
 Lemma suffix_step_mono pe pe' ps ps' pa pa' : pe_le pe pe' -> ps_le ps ps' -> pa_le pa pa' ->
-  forall L left ll ts r, suffix_step pe ps pa L left ll ts = Some r -> suffix_step pe' ps' pa' L left ll ts = Some r.
+  forall ni L left ll ts r, suffix_step pe ps pa ni L left ll ts = Some r -> suffix_step pe' ps' pa' ni L left ll ts = Some r.
 Proof.
-  intros He Hs Ha L left ll ts r H. unfold suffix_step in *.
+  intros He Hs Ha ni L left ll ts r H. unfold suffix_step in *.
   destruct ts as [|t r0]; [exact H|].
   destruct (is_dot t).
   - destruct r0 as [|[s| | |] r']; try discriminate.
     destruct (S_Call <=? ll); [|discriminate]. apply Hs. exact H.
   - destruct (is_lbrack t).
     { destruct (S_Call <=? ll); [|discriminate].
-      destruct (pe 0 r0) as [[i [|c r']]|] eqn:E; try discriminate. rewrite (He _ _ _ E).
+      destruct (pe false 0 r0) as [[i [|c r']]|] eqn:E; try discriminate. rewrite (He _ _ _ _ E).
       destruct (is_rbrack c); [|discriminate]. apply Hs. exact H. }
     destruct (is_open t).
     { destruct (S_Call <=? L); [exact H|]. destruct (S_Call <=? ll); [|discriminate].
       destruct (pa r0) as [[a r']|] eqn:E; [|discriminate]. rewrite (Ha _ _ E). apply Hs. exact H. }
     destruct (is_quest t).
     { destruct (S_Cond <=? L); [exact H|]. destruct (S_Cond <? ll); [|discriminate].
-      destruct (pe 3 r0) as [[y [|c r']]|] eqn:E; try discriminate. rewrite (He _ _ _ E).
+      destruct (pe false 3 r0) as [[y [|c r']]|] eqn:E; try discriminate. rewrite (He _ _ _ _ E).
       destruct (is_colon c); [|discriminate].
-      destruct (pe 3 r') as [[no r'']|] eqn:E2; [|discriminate]. rewrite (He _ _ _ E2). apply Hs. exact H. }
+      destruct (pe ni 3 r') as [[no r'']|] eqn:E2; [|discriminate]. rewrite (He _ _ _ _ E2). apply Hs. exact H. }
     destruct (postfix_op t).
     + destruct (S_Update <=? L); [exact H|].
       destruct ((S_Member <=? ll) && is_target left); [|discriminate]. apply Hs. exact H.
     + destruct (binary_op t); [|exact H].
-      destruct (spec_level o <=? L); [exact H|].
+      destruct ((ni && op_eqb o BIn) || (spec_level o <=? L)); [exact H|].
       destruct (left_ok o ll left); [|discriminate].
-      destruct (pe (right_level o) r0) as [[rt r']|] eqn:E; [|discriminate]. rewrite (He _ _ _ E).
+      destruct (pe ni (right_level o) r0) as [[rt r']|] eqn:E; [|discriminate]. rewrite (He _ _ _ _ E).
       apply Hs. exact H.
 Qed.
 
@@ -188,7 +188,7 @@ Lemma args_step_mono pe pe' pa pa' : pe_le pe pe' -> pa_le pa pa' ->
 Proof.
   intros He Ha ts r H. unfold args_step in *. destruct ts as [|t r0]; [discriminate|].
   destruct (is_close t); [exact H|].
-  destruct (pe 3 (t :: r0)) as [[e [|c r']]|] eqn:E; try discriminate. rewrite (He _ _ _ E).
+  destruct (pe false 3 (t :: r0)) as [[e [|c r']]|] eqn:E; try discriminate. rewrite (He _ _ _ _ E).
   destruct (is_close c); [exact H|]. destruct (is_comma c); [|discriminate].
   destruct (pa r') as [[rest r'']|] eqn:E2; [|discriminate]. rewrite (Ha _ _ E2). exact H.
 Qed.
@@ -197,17 +197,17 @@ Lemma parse_mono_S n :
   pe_le (parse_expr n) (parse_expr (S n)) /\ ps_le (parse_suffix n) (parse_suffix (S n)) /\ pa_le (parse_args n) (parse_args (S n)).
 Proof.
   induction n as [|n (IHe & IHs & IHa)].
-  - repeat split; [intros L ts r H | intros L left ll ts r H | intros ts r H]; discriminate.
+  - repeat split; [intros ni L ts r H | intros ni L left ll ts r H | intros ts r H]; discriminate.
   - repeat split.
-    + intros L ts r H. rewrite parse_expr_S in *. eapply expr_step_mono; eauto.
-    + intros L left ll ts r H. rewrite parse_suffix_S in *. eapply suffix_step_mono; eauto.
+    + intros ni L ts r H. rewrite parse_expr_S in *. eapply expr_step_mono; eauto.
+    + intros ni L left ll ts r H. rewrite parse_suffix_S in *. eapply suffix_step_mono; eauto.
     + intros ts r H. rewrite parse_args_S in *. eapply args_step_mono; eauto.
 Qed.
 
-Lemma parse_expr_mono n m L ts r : (n <= m)%nat -> parse_expr n L ts = Some r -> parse_expr m L ts = Some r.
+Lemma parse_expr_mono n m ni L ts r : (n <= m)%nat -> parse_expr n ni L ts = Some r -> parse_expr m ni L ts = Some r.
 Proof. induction 1 as [|m Hle IH]; [auto|]. intro H0. apply (proj1 (parse_mono_S m)). auto. Qed.
-Lemma parse_suffix_mono n m L left ll ts r :
-  (n <= m)%nat -> parse_suffix n L left ll ts = Some r -> parse_suffix m L left ll ts = Some r.
+Lemma parse_suffix_mono n m ni L left ll ts r :
+  (n <= m)%nat -> parse_suffix n ni L left ll ts = Some r -> parse_suffix m ni L left ll ts = Some r.
 Proof. induction 1 as [|m Hle IH]; [auto|]. intro H0. apply (proj1 (proj2 (parse_mono_S m))). auto. Qed.
 Lemma parse_args_mono n m ts r : (n <= m)%nat -> parse_args n ts = Some r -> parse_args m ts = Some r.
 Proof. induction 1 as [|m Hle IH]; [auto|]. intro H0. apply (proj2 (proj2 (parse_mono_S m))). auto. Qed.
